@@ -52,12 +52,12 @@ func genCross(transports []string) func(t *rapid.T) Cross {
 			Pad:        rapid.SampledFrom([]int{0, 0, 50, 200, 300}).Draw(t, "pad"),
 			Tsig:       rapid.IntRange(0, 9).Draw(t, "tsig") < 4,
 			Async:      rapid.IntRange(0, 9).Draw(t, "async") < 4,
-			IdlePauses: rapid.IntRange(2, 4).Draw(t, "idlePauses"),
+			IdlePauses: rapid.IntRange(2, 3).Draw(t, "idlePauses"),
 			AsyncK:     rapid.IntRange(0, 4).Draw(t, "asyncK"),
 			Salt:       rapid.Uint32().Draw(t, "salt"),
 		}
-		if rapid.IntRange(0, 9).Draw(t, "idle") < 3 {
-			c.IdleMs = rapid.SampledFrom([]int{15, 25, 40}).Draw(t, "idleMs")
+		if rapid.IntRange(0, 9).Draw(t, "idle") < 2 {
+			c.IdleMs = rapid.SampledFrom([]int{12, 20, 30}).Draw(t, "idleMs")
 			if c.Pad == 0 {
 				c.Pad = 200 // large requests, so that mixed buffers show
 			}
